@@ -269,6 +269,7 @@ def run(ctx):
             used = [("p1", "n-used"), ("c1", "n-used")]
             run_one(ctx, json.dumps([sup, rng.random() < 0.3]), sup, used, rng.random() < 0.3, query, form, approve)
     run_mostly_valid(ctx)
+    run_histories(ctx)
 
 
 VALID = [("code", "c1"), ("code", "p1"), ("token", "p1"), ("id_token", "p1"), ("id_token token", "p1"), ("code id_token", "c1"),
@@ -306,6 +307,45 @@ def run_mostly_valid(ctx):
                     run_one(ctx, "mv", sup, [("p1", "n-used"), ("c1", "n-used")], rng.random() < 0.3, query, form, approve)
 
 
+def run_histories(ctx):
+    """One server and one set of client objects across registration updates (RFC 7592 style: a new metadata document through
+    set_client_metadata): the redirect URIs that count are those registered NOW, not those seen by an earlier request."""
+    import copy
+    m = ctx.model
+    uris = {"A": REG1, "B": "https://client.example/cb2", "C": REG2}
+    scripts = [["A", ("set", ["B"]), "A", "B", None], ["A", "A", ("set", ["A", "B"]), "B", ("set", ["B"]), "A", None, "B"],
+               [None, ("set", ["C", "A"]), None, "A", ("set", []), "A", None], ["B", ("set", ["B"]), "B", ("set", ["A"]), "B", "A"]]
+    for si, script in enumerate(scripts):
+        for cid in ("c1", "p1"):
+            store, srv = build(None, [], False)
+            reg = copy.deepcopy(CLIENTS)
+            for step_no, step in enumerate(script):
+                cur = next(c for c in reg if c["id"] == cid)
+                if isinstance(step, tuple):
+                    cur["redirect_uris"] = [uris[x] for x in step[1]]
+                    store.clients[cid].update_metadata(redirect_uris=list(cur["redirect_uris"]))
+                    continue
+                q = [("response_type", "code"), ("client_id", cid), ("state", "st"), ("scope", "a")] + ([("redirect_uri", uris[step])] if step else [])
+                try:
+                    resp = srv.create_authorization_response(S.HReq("GET", "https://as.example/authorize?" + url_encode(q), None, {}), grant_user=S.User("alice"))
+                    got = outcome(resp, [u for c in reg for u in c["redirect_uris"]] + list(uris.values()))
+                except Exception as e:  # noqa
+                    got = ["escapes", type(e).__name__, str(e)[:60]]
+                mod = m.call("authorize_respond", {"config": {"clients": reg, "scopes_supported": [], "used_nonces": [], "require_nonce": False},
+                                                   "query": [[k.encode(), v.encode()] for k, v in q], "form": [], "approve": True})
+                case = {"history": si, "client": cid, "step": step_no, "script": [list(x) if isinstance(x, tuple) else x for x in script], "registered_now": cur["redirect_uris"]}
+                ctx.case(case, ("history", si, cid, step_no), "history:%s" % got[0])
+                ctx.compare("authorize_respond", case, got, mod)
+                want = (uris[step] if uris[step] in cur["redirect_uris"] else None) if step else (cur["redirect_uris"][0] if cur["redirect_uris"] else None)
+                if got[0] in ("redirect", "form_post") and got[1] != want:
+                    ctx.violation("C05:redirect-to-unvalidated-uri:history", "after a registration update the user agent is sent to a URI the client has "
+                                  "not registered (any more)", dict(case, got=got))
+                if got[0] == "local" and want is not None:
+                    ctx.violation("C05:registered-uri-refused:history", "after a registration update a URI the client has registered is refused", dict(case, got=got))
+
+
 def run_case(ctx, case):
+    if "history" in case:
+        return run_histories(ctx)
     run_one(ctx, "replay", case["scopes_supported"], [tuple(x) for x in case["used_nonces"]], case["require_nonce"],
             [tuple(x) for x in case["query"]], [tuple(x) for x in case["form"]], case["approve"])
